@@ -351,19 +351,50 @@ class Analysis:
     def relation(self):
         normal, reentrant = set(), set()
         self.reentrant_roots = []
+        self.owners = {}   # (held, want, site) -> API roots that reach this acquisition
         gate = frozenset([GATE])
+
+        def note(acqs, root):
+            for a in acqs:
+                self.owners.setdefault(a, []).append(root.label)
+            return acqs
         for f, in_txn in self.roots():
             if in_txn:
-                normal |= self.walk(f, gate, [])
+                normal |= note(self.walk(f, gate, []), f)
             else:
-                normal |= self.walk(f, frozenset(), [])
+                normal |= note(self.walk(f, frozenset(), []), f)
                 under = self.walk(f, gate, [])
                 if any(w == GATE for (_, w, _) in under):
                     reentrant |= under
                     self.reentrant_roots.append(f.label)
                 else:
-                    normal |= under
+                    normal |= note(under, f)
         return normal, reentrant | normal
+
+
+def feasible_cycle(rel):
+    """a cycle of acquisitions with pairwise disjoint held-sets (the search of Model/LockLTS.lean `dfs`),
+    as a list of (held, want, site); None if there is none.  Self-loops (want ∈ held) are ignored here:
+    they are the re-entrant sites handled separately."""
+    acqs = sorted({(h, w, s) for (h, w, s) in rel if w not in h and h}, key=lambda a: (len(a[0]), sorted(a[0]), a[1], a[2]))
+
+    def dfs(path, used):
+        cur, first = path[-1], path[0]
+        if len(path) > 1 and cur[1] in first[0]:
+            return path
+        if len(path) > 12:
+            return None
+        for b in acqs:
+            if cur[1] in b[0] and not (b[0] & used) and b not in path:
+                r = dfs(path + [b], used | b[0])
+                if r:
+                    return r
+        return None
+    for a in acqs:
+        r = dfs([a], set(a[0]))
+        if r:
+            return r
+    return None
 
 
 def lean_table(sources):
@@ -407,6 +438,22 @@ def lean_table(sources):
         names = "{" + ",".join(locks[i] for i in h) + "} -> " + locks[w]
         out.append(f"  ({list(h)}, {w})" + ("," if n + 1 < len(extra) else "") + f"  -- {names}   @ {', '.join(sorted(set(sites))[:3])}")
     out.append("]")
+    # a feasible cycle of the normal relation, with the API operation owning each site: the `locks` stream
+    # turns it into a forced schedule (each thread takes the cycle lock it holds, parks, then all proceed)
+    cyc = feasible_cycle(normal)
+    witness = []
+    if cyc:
+        for k, (h, w, site) in enumerate(cyc):
+            prev_want = cyc[k - 1][1]            # the lock of this edge's held-set that closes the cycle
+            pref = ["capi:ndb_txn_commit", "capi:ndb_execute_write", "capi:ndb_search_vector", "capi:ndb_create_index",
+                    "capi:ndb_compact", "capi:ndb_checkpoint", "capi:ndb_query", "capi:ndb_backup"]
+            roots = sorted(an.owners.get((h, w, site), []),
+                           key=lambda r: (pref.index(r) if r in pref else len(pref), not r.startswith("capi:"), r))
+            fn = site.split(">")[0].split("::")[-1]
+            witness.append(f"{roots[0] if roots else '?'}@{fn}@{prev_want}")
+    lean_table.witness = witness
+    out.append("/-- forced-schedule witness of a feasible cycle (`operation@function@lock it parks after`), empty if none -/")
+    out.append("def cycleWitness : List String := [" + ", ".join(f'"{x}"' for x in witness) + "]")
     out.append("/-- public operations that ask for write_lock (path-insensitively) when called by a thread that owns a write transaction -/")
     out.append("def reentrantRoots : List String := [" + ", ".join(f'"{r}"' for r in sorted(an.reentrant_roots)) + "]")
     out.append("end Nervus.Generated")
